@@ -43,6 +43,10 @@ def replay(case) -> dict:
     rng = np.random.default_rng(sum(s) * 7 + o)
     img = rng.integers(1, 9, size=s).astype(np.float32)
     img[0, 0, 0] += 40.0  # a delta keeps every Fourier coefficient away from zero
+    # "all real inputs": the same integer-valued image as float32, float64, int16 or uint8 data
+    vox = ("float32", "int16", "float64", "uint8")[(sum(s) + o + abs(cfg["c"][0])) % 4]
+    desc["vox"] = vox
+    img = img.astype(vox)
     F = np.fft.fftn(img.astype(np.float64))
     want = _gains(case)
     xp = Backend()
